@@ -257,7 +257,16 @@ def check_translation(rep, tier):
         nin = fname and (2 if op in ("composition", "rplus") else 1)
         outp = nin
         cells, problems = irw.cell_writes(ff, outp, ss)
-        if problems or irw.foreign_writes(ff, {outp}):
+        fw = irw.foreign_writes(ff, {outp})
+        glob = [w for w in fw if ir.root_kind(w["prov"].root) == "global" and not str(ir.flat_roots(w["prov"].root)[0][1]).startswith(("@_ZGV", "@__cxa"))]
+        if glob and not problems:
+            gname = str(ir.flat_roots(glob[0]["prov"].root)[0][1])
+            rep.instance("T1", "%s<%s,%d>" % (meta["ct"].split("<")[0], S, n), op, ok=False, sample={"witness": fname, "global": gname[:80]})
+            rep.violation(Finding("T1", "%s" % meta["ct"], op,
+                                  "%s writes to the object with static storage `%s`: the result is kept between calls, so it can depend on earlier calls (for dynamic sizes: "
+                                  "on the size of the first call) instead of on the argument alone" % (op, gname[:90]), None, None, detail={"witness": fname}))
+            continue
+        if problems or fw:
             rep.broke("%s: %s" % (fname, (problems or ["foreign write"])[0]))
             continue
         size = {"add": n, "neg": n, "copy": n, "eye": n * n, "zero": n * n * (n if "d2r" in op else 1)}[shape]
